@@ -92,7 +92,7 @@ theorem stackAlong_mem : ∀ (rest : List Tree) (L0 : List (Nat × Nat)) (b : Na
     simp only [stackAlong] at hb
     simp only [nearestDecl]
     by_cases hel : a.value.isElement = true
-    · rw [if_pos hel, mem_fullnameInfoNew] at hb
+    · rw [if_pos hel, fc_mem_fullnameInfoNew] at hb
       rcases hb with h1 | ⟨h1, h2⟩
       · rw [lookup_of_mem_nodup a.nsDecls b oka.2 h1]
         exact Or.inl rfl
@@ -134,7 +134,7 @@ theorem traverseDecls_yields : ∀ (d : List (Nat × Nat)) (seen : List Nat) (q 
         have ih := traverseDecls_yields d (seen ++ [p]) q n hs' hl hu
         split <;> simp [ih]
 
-theorem traverseDecls_seen : ∀ (d : List (Nat × Nat)) (seen : List Nat) (q : Nat), q ∉ seen →
+theorem fc_traverseDecls_seen : ∀ (d : List (Nat × Nat)) (seen : List Nat) (q : Nat), q ∉ seen →
     d.lookup q = none → q ∉ (traverseDecls seen d).1
   | [], _, _, hs, _ => by simpa [traverseDecls] using hs
   | (p, m) :: d, seen, q, hs, hl => by
@@ -145,9 +145,9 @@ theorem traverseDecls_seen : ∀ (d : List (Nat × Nat)) (seen : List Nat) (q : 
     simp only [traverseDecls]
     by_cases hc : seen.contains p = true
     · simp only [hc, if_true]
-      exact traverseDecls_seen d seen q hs hl
+      exact fc_traverseDecls_seen d seen q hs hl
     · simp only [hc, Bool.false_eq_true, if_false]
-      exact traverseDecls_seen d (seen ++ [p]) q (by simp [hs, e]) hl
+      exact fc_traverseDecls_seen d (seen ++ [p]) q (by simp [hs, e]) hl
 
 theorem traverseDecls_out_sub : ∀ (d : List (Nat × Nat)) (seen : List Nat) (b : Nat × Nat),
     b ∈ (traverseDecls seen d).2 → b ∈ d
@@ -179,7 +179,7 @@ theorem traverseChain_yields : ∀ (chain : List Tree) (seen : List Nat) (q n : 
       exact Or.inl (traverseDecls_yields _ seen q n hs hl hu)
     | none =>
       rw [hl] at hn
-      exact Or.inr (traverseChain_yields rest _ q n (traverseDecls_seen _ seen q hs hl) hn hu)
+      exact Or.inr (traverseChain_yields rest _ q n (fc_traverseDecls_seen _ seen q hs hl) hn hu)
 
 theorem nearestDecl_none : ∀ (chain : List Tree) (q : Nat), nearestDecl chain q = none →
     ∀ a ∈ chain, a.nsDecls.lookup q = none
@@ -315,13 +315,13 @@ theorem nearestDecl_on_stack : ∀ (rest : List Tree) (L0 : List (Nat × Nat)) (
         cases he : a.value.isElement with
         | true => rfl
         | false => rw [oka.1 he] at hl; simp at hl
-      rw [if_pos hel, mem_fullnameInfoNew]
+      rw [if_pos hel, fc_mem_fullnameInfoNew]
       exact Or.inl (lookup_some_mem _ _ _ hl)
     | none =>
       rw [hl] at h
       have ih := nearestDecl_on_stack more L0 q n okm h
       by_cases hel : a.value.isElement = true
-      · rw [if_pos hel, mem_fullnameInfoNew]
+      · rw [if_pos hel, fc_mem_fullnameInfoNew]
         exact Or.inr ⟨ih, lookup_none_no_key _ _ hl⟩
       · rw [if_neg hel]; exact ih
 
